@@ -135,7 +135,7 @@ func (e *Env) Append(a *frac.Active, docs []refdb.Doc) error {
 	if err := a.Append(d, m, &wg); err != nil {
 		return err
 	}
-	wg.Wait()
+	waitIndexed(&wg)
 	return nil
 }
 
